@@ -262,3 +262,29 @@ def m3(x, y=0):
 
 
 MFUNCS = [m1, m2, m3]
+
+
+# equal-but-differently-typed arguments (1 == 1.0 == True): the value names the type received
+EQTYPES = [1, 1.0, True, 2, 2.0, 0]
+
+
+def _evalue(x):
+    return ('eq', type(x).__name__, repr(x))
+
+
+def e1(x, y=0):
+    _body('e1', x, y)
+    return _evalue(x)
+
+
+def e2(x, y=0):
+    _body('e2', x, y)
+    return _evalue(x)
+
+
+def e3(x, y=0):
+    _body('e3', x, y)
+    return _evalue(x)
+
+
+EFUNCS = [e1, e2, e3]
